@@ -3,6 +3,7 @@ package main
 import (
 	"go/ast"
 	"go/types"
+	"strings"
 )
 
 func init() { register("C01", rulesC01, deepC01) }
@@ -351,6 +352,11 @@ func rulesC01(c *Ctx) {
 
 	c.Rule("R-C01-8", "a transport's producer goroutine cannot die silently: its exit always reaches the session's reader (close or error), otherwise pending calls stay blocked (streamable client: R-C09-3)", func() { ruleC01ProducerExit(c) })
 	c.Rule("R-C01-9", "streamable client: a call whose response stream breaks is completed by a synthetic error or by failing the connection, never left pending (shared with R-C09-3)", func() { ruleStreamNeverSilent(c) })
+	c.Import("R-C01-11", "no message of a batch is dropped by the newline-delimited transports: responses in a batch complete their calls", "C03", "R-C03-7", func(k string) bool { return strings.HasPrefix(k, "ioConn.Read") || strings.HasPrefix(k, "readBatch") })
+	c.Import("R-C01-12", "an abandoned call is retired whatever happens to the cancel notice (cancelCall), so it can never keep the connection from becoming idle", "C04", "R-C04-1", func(k string) bool {
+		return strings.HasPrefix(k, "cancelCall:retire") || strings.HasPrefix(k, "call:retire")
+	})
+
 	c.Rule("R-C01-10", "the plumbing the other rules presuppose: the reader reads one message per iteration and dispatches it (responses by id, requests to acceptRequest), start marks the reader as running before it starts it, and Await hands the caller the response's error or decodes its result", func() {
 		ri := c.Fn(pJ, "Connection", "readIncoming")
 		g := ri.Graph()
@@ -393,7 +399,9 @@ func rulesC01(c *Ctx) {
 			})
 		}
 		okErr := false
-		for _, t := range g.edgesWhere(func(a Atom) bool { return AtomSaysNil(a, false, func(e ast.Expr) bool { return errV != nil && ri.ObjOf(e) == errV }) }) {
+		for _, t := range g.edgesWhere(func(a Atom) bool {
+			return AtomSaysNil(a, false, func(e ast.Expr) bool { return errV != nil && ri.ObjOf(e) == errV })
+		}) {
 			// the failure edge leaves the loop: the next Read is not reachable from it
 			if seen, _ := g.reach([]int{t}, nil, nil); !seen[rv[0]] {
 				okErr = true
@@ -555,7 +563,9 @@ func ruleC01ProducerExit(c *Ctx) {
 			rv := lg.VertexOf(r)
 			_, inClosedArm := lit.ParentOf(r).(*ast.CommClause)
 			decErr := lit.VarFromCallNamed("Decode", 0)
-			afterSend := lg.Dominates(sends[0], rv) && hasAtom(lg.GuardsAt(rv), func(a Atom) bool { return AtomSaysNil(a, false, func(e ast.Expr) bool { return lit.IsObjExpr(e, decErr) }) })
+			afterSend := lg.Dominates(sends[0], rv) && hasAtom(lg.GuardsAt(rv), func(a Atom) bool {
+				return AtomSaysNil(a, false, func(e ast.Expr) bool { return lit.IsObjExpr(e, decErr) })
+			})
 			c.Check(inClosedArm || afterSend, "ioConn-reader:return#"+itoa(i), lit, r, "the reader goroutine exits only on the closed arm or after the read error has been handed to Read (so the session observes the failure)")
 		}
 	}
@@ -636,57 +646,57 @@ func deepC01(c *Ctx) {
 
 // responseArmRule is shared by R-C01-5 and R-C04-4 (a late response to an abandoned call is a no-op).
 func responseArmRule(c *Ctx) {
-		ri := c.Fn(pJ, "Connection", "readIncoming")
-		outgoing := c.Field(pJ, "inFlightState", "outgoingCalls")
-		retireObj := c.FnObj(pJ, "AsyncCall", "retire")
-		idField := c.Field(pJ, "Response", "ID")
-		n := 0
-		for _, s := range c.uifSites(ri) {
-			l := s.Lit
-			calls := l.CallsIn(l.Body, retireObj, false)
-			if len(calls) == 0 || len(l.FieldWrites(l.Body, c.Field(pJ, "inFlightState", "readErr"), false)) > 0 {
-				continue
-			}
-			n++
-			// enclosing type-switch clause must be *Response
-			cc, _ := ri.Enclosing(s.Call, func(n ast.Node) bool { _, ok := n.(*ast.CaseClause); return ok }).(*ast.CaseClause)
-			isResp := cc != nil && len(cc.List) == 1 && namedOf(ri.TypeOf(cc.List[0])) == c.P.LookupType(pJ, "Response")
-			c.Check(isResp, "response-arm:type", ri, s.Call, "completion closure sits in the *Response arm of the message type switch")
-			lg := l.Graph()
-			rc := calls[0]
-			rv := lg.VertexOf(rc)
-			// lookup: ac, ok := s.outgoingCalls[msg.ID]
-			var lookupKey ast.Expr
-			var okVar, acVar types.Object
-			for _, w := range Writes(l.Body, false) {
-				as, isAs := w.Stmt.(*ast.AssignStmt)
-				if !isAs || len(as.Lhs) != 2 || len(as.Rhs) != 1 {
-					continue
-				}
-				if m, k, ok := indexOf(as.Rhs[0]); ok && l.IsField(m, outgoing) {
-					lookupKey, acVar, okVar = k, l.ObjOf(as.Lhs[0]), l.ObjOf(as.Lhs[1])
-				}
-			}
-			if !c.Check(lookupKey != nil, "response-arm:lookup", l, nil, "comma-ok lookup in outgoingCalls") {
-				continue
-			}
-			c.Check(l.IsField(lookupKey, idField), "response-arm:key-is-response-id", l, lookupKey, "lookup key is the response's ID (%s)", exprStr(lookupKey))
-			guards := lg.GuardsAt(rv)
-			c.Check(hasAtom(guards, func(a Atom) bool { return a.Val && l.ObjOf(a.E) == okVar }), "response-arm:ok-guard", l, rc,
-				"retire only under the ok guard (an unknown or late id is a no-op, never a nil dereference)")
-			sel, _ := ast.Unparen(rc.Fun).(*ast.SelectorExpr)
-			c.Check(sel != nil && l.ObjOf(sel.X) == acVar, "response-arm:retire-looked-up-call", l, rc, "the call retired is the one found under that id")
-			c.Check(len(rc.Args) == 1 && l.ObjOf(rc.Args[0]) != nil && l.ObjOf(rc.Args[0]) == l.ObjOf(ast.Unparen(lookupKey).(*ast.SelectorExpr).X), "response-arm:payload", l, rc, "the response handed to the call is the message that carried the id")
-			// delete with same key dominates retire
-			delOK := false
-			for _, dc := range l.AllCalls(l.Body, false) {
-				if l.BuiltinName(dc) == "delete" && len(dc.Args) == 2 && l.IsField(dc.Args[0], outgoing) && sameExpr(dc.Args[1], lookupKey) {
-					if lg.Dominates(lg.VertexOf(dc), rv) && lg.VertexOf(dc) != rv {
-						delOK = true
-					}
-				}
-			}
-			c.Check(delOK, "response-arm:delete-before-retire", l, rc, "delete(outgoingCalls, sameKey) strictly dominates retire")
+	ri := c.Fn(pJ, "Connection", "readIncoming")
+	outgoing := c.Field(pJ, "inFlightState", "outgoingCalls")
+	retireObj := c.FnObj(pJ, "AsyncCall", "retire")
+	idField := c.Field(pJ, "Response", "ID")
+	n := 0
+	for _, s := range c.uifSites(ri) {
+		l := s.Lit
+		calls := l.CallsIn(l.Body, retireObj, false)
+		if len(calls) == 0 || len(l.FieldWrites(l.Body, c.Field(pJ, "inFlightState", "readErr"), false)) > 0 {
+			continue
 		}
-		c.Pin("response arm", n, 1)
+		n++
+		// enclosing type-switch clause must be *Response
+		cc, _ := ri.Enclosing(s.Call, func(n ast.Node) bool { _, ok := n.(*ast.CaseClause); return ok }).(*ast.CaseClause)
+		isResp := cc != nil && len(cc.List) == 1 && namedOf(ri.TypeOf(cc.List[0])) == c.P.LookupType(pJ, "Response")
+		c.Check(isResp, "response-arm:type", ri, s.Call, "completion closure sits in the *Response arm of the message type switch")
+		lg := l.Graph()
+		rc := calls[0]
+		rv := lg.VertexOf(rc)
+		// lookup: ac, ok := s.outgoingCalls[msg.ID]
+		var lookupKey ast.Expr
+		var okVar, acVar types.Object
+		for _, w := range Writes(l.Body, false) {
+			as, isAs := w.Stmt.(*ast.AssignStmt)
+			if !isAs || len(as.Lhs) != 2 || len(as.Rhs) != 1 {
+				continue
+			}
+			if m, k, ok := indexOf(as.Rhs[0]); ok && l.IsField(m, outgoing) {
+				lookupKey, acVar, okVar = k, l.ObjOf(as.Lhs[0]), l.ObjOf(as.Lhs[1])
+			}
+		}
+		if !c.Check(lookupKey != nil, "response-arm:lookup", l, nil, "comma-ok lookup in outgoingCalls") {
+			continue
+		}
+		c.Check(l.IsField(lookupKey, idField), "response-arm:key-is-response-id", l, lookupKey, "lookup key is the response's ID (%s)", exprStr(lookupKey))
+		guards := lg.GuardsAt(rv)
+		c.Check(hasAtom(guards, func(a Atom) bool { return a.Val && l.ObjOf(a.E) == okVar }), "response-arm:ok-guard", l, rc,
+			"retire only under the ok guard (an unknown or late id is a no-op, never a nil dereference)")
+		sel, _ := ast.Unparen(rc.Fun).(*ast.SelectorExpr)
+		c.Check(sel != nil && l.ObjOf(sel.X) == acVar, "response-arm:retire-looked-up-call", l, rc, "the call retired is the one found under that id")
+		c.Check(len(rc.Args) == 1 && l.ObjOf(rc.Args[0]) != nil && l.ObjOf(rc.Args[0]) == l.ObjOf(ast.Unparen(lookupKey).(*ast.SelectorExpr).X), "response-arm:payload", l, rc, "the response handed to the call is the message that carried the id")
+		// delete with same key dominates retire
+		delOK := false
+		for _, dc := range l.AllCalls(l.Body, false) {
+			if l.BuiltinName(dc) == "delete" && len(dc.Args) == 2 && l.IsField(dc.Args[0], outgoing) && sameExpr(dc.Args[1], lookupKey) {
+				if lg.Dominates(lg.VertexOf(dc), rv) && lg.VertexOf(dc) != rv {
+					delOK = true
+				}
+			}
+		}
+		c.Check(delOK, "response-arm:delete-before-retire", l, rc, "delete(outgoingCalls, sameKey) strictly dominates retire")
 	}
+	c.Pin("response arm", n, 1)
+}
